@@ -67,7 +67,9 @@ func lemmaObligation(P *Program, l *Lemma) (o *Obligation, err error) {
 		found := false
 		for _, l2 := range P.lemmas {
 			if l2.Name == u {
-				bg = append(bg, "(assert "+env.trBool(l2.Body)+")")
+				e2 := env.child()
+				e2.pkg = l2.Pkg
+				bg = append(bg, "(assert "+e2.trHyp(l2.Stmt())+")")
 				found = true
 			}
 		}
@@ -538,8 +540,17 @@ func inductionObligations(P *Program, l *Lemma) (obls []*Obligation, err error) 
 		env.vars["ind_N"] = TV{N, tyInt}
 		var bg []string
 		bg = append(bg, "(assert (>= ind_N 0))")
+		for _, u := range l.Uses {
+			for _, l2 := range P.lemmas {
+				if l2.Name == u {
+					e2 := env.child()
+					e2.pkg = l2.Pkg
+					bg = append(bg, "(assert "+e2.trHyp(l2.Stmt())+")")
+				}
+			}
+		}
 		if hyp != nil {
-			bg = append(bg, "(assert "+env.trBool(hyp)+")")
+			bg = append(bg, "(assert "+env.trHyp(hyp)+")")
 		}
 		g := env.trBool(goal)
 		bg = append(bg, fv.bg...)
@@ -551,5 +562,8 @@ func inductionObligations(P *Program, l *Lemma) (obls []*Obligation, err error) 
 	N := &EIdent{Name: "ind_N"}
 	obls = append(obls, mk("base", nil, inst(&EInt{Val: "0"})))
 	obls = append(obls, mk("step", inst(N), inst(&EBin{Op: "+", L: N, R: &EInt{Val: "1"}})))
+	if l.Yields != nil {
+		obls = append(obls, mk("yield", l.Body, l.Yields))
+	}
 	return obls, nil
 }
